@@ -3,7 +3,7 @@
 
   * `Local`   ghost view of one thread: the bindings `B`/`R` its genomes hold, the numbers / node ids it has drawn from
               the counters and not yet recorded (`pendI`/`pendN`, it OWNS them), the records it has seen or stored (`known`).
-  * `PValid Post L p`   the thread-local proof obligation of program `p` from view `L`: one rule per registry operation.
+  * `PValid bi Post L p`   the thread-local proof obligation of program `p` from view `L`: one rule per registry operation.
               What a thread may ASSUME after an operation is only what survives every interference of the others
               (`SnapOk`: a snapshot's records agree with the thread's own bindings; `FreshI`/`FreshN`: a drawn number is
               new to the thread); what it must GUARANTEE when it stores (`StoreOk`): the record consists of numbers it
@@ -139,14 +139,15 @@ structure Local (W : Type) where
   known : List (Innov W)
 
 /-- what a thread may assume about the records of a snapshot: they agree with the bindings it holds -/
-structure SnapOk (L : Local W) (recs : List (Innov W)) : Prop where
+structure SnapOk (bi : Int) (L : Local W) (recs : List (Innov W)) : Prop where
   link : ∀ i ∈ recs, i.typ = 2 → ∀ b ∈ L.B, b.1 = i.inn → b = (i.inn, i.inId, i.outId, i.recur)
   node1 : ∀ i ∈ recs, i.typ = 1 → ∀ b ∈ L.B, b.1 = i.inn → b.2.1 = i.inId ∧ b.2.2.1 = i.newNode
   node2 : ∀ i ∈ recs, i.typ = 1 → ∀ b ∈ L.B, b.1 = i.inn2 → b = (i.inn2, i.newNode, i.outId, false)
   nodeR : ∀ i ∈ recs, i.typ = 1 → ∀ p ∈ L.R, p.1 = i.newNode → p.2 = Kind.hidden
   ne12 : ∀ i ∈ recs, i.typ = 1 → i.inn ≠ i.inn2
+  above : ∀ i ∈ recs, ∀ k ∈ recInns i, bi < k
 
-def FreshI (L : Local W) (n : Int) : Prop := (∀ b ∈ L.B, b.1 ≠ n) ∧ n ∉ L.pendI
+def FreshI (bi : Int) (L : Local W) (n : Int) : Prop := (∀ b ∈ L.B, b.1 < n) ∧ n ∉ L.pendI ∧ bi < n
 def FreshN (L : Local W) (n : Int) : Prop := (∀ p ∈ L.R, p.1 ≠ n) ∧ n ∉ L.pendN
 
 /-- what a thread must guarantee when it stores a record: it drew the numbers itself -/
@@ -167,19 +168,19 @@ def JustB (L : Local W) (b : Bind) : Prop :=
 
 def JustR (L : Local W) (p : Role) : Prop := ∃ i ∈ L.known, i.typ = 1 ∧ p = (i.newNode, Kind.hidden)
 
-inductive PValid {α : Type} (Post : Local W → α → Prop) : Local W → Prog W α → Prop
-  | done {L a} : Post L a → PValid Post L (.done a)
-  | snap {L k} : (∀ recs, SnapOk L recs → PValid Post { L with known := recs ++ L.known } (k recs)) → PValid Post L (.snap k)
-  | nextInn {L k} : (∀ n, FreshI L n → PValid Post { L with pendI := n :: L.pendI } (k n)) → PValid Post L (.nextInn k)
-  | nextNode {L k} : (∀ n, FreshN L n → PValid Post { L with pendN := n :: L.pendN } (k n)) → PValid Post L (.nextNode k)
-  | store {L i k} : StoreOk L i → PValid Post (L.afterStore i) k → PValid Post L (.store i k)
-  | ghostB {L b p} : JustB L b → PValid Post { L with B := b :: L.B } p → PValid Post L p
-  | ghostR {L r p} : JustR L r → PValid Post { L with R := r :: L.R } p → PValid Post L p
+inductive PValid {α : Type} (bi : Int) (Post : Local W → α → Prop) : Local W → Prog W α → Prop
+  | done {L a} : Post L a → PValid bi Post L (.done a)
+  | snap {L k} : (∀ recs, SnapOk bi L recs → PValid bi Post { L with known := recs ++ L.known } (k recs)) → PValid bi Post L (.snap k)
+  | nextInn {L k} : (∀ n, FreshI bi L n → PValid bi Post { L with pendI := n :: L.pendI } (k n)) → PValid bi Post L (.nextInn k)
+  | nextNode {L k} : (∀ n, FreshN L n → PValid bi Post { L with pendN := n :: L.pendN } (k n)) → PValid bi Post L (.nextNode k)
+  | store {L i k} : StoreOk L i → PValid bi Post (L.afterStore i) k → PValid bi Post L (.store i k)
+  | ghostB {L b p} : JustB L b → PValid bi Post { L with B := b :: L.B } p → PValid bi Post L p
+  | ghostR {L r p} : JustR L r → PValid bi Post { L with R := r :: L.R } p → PValid bi Post L p
 
 /-- sequential composition -/
-theorem PValid.bind {α β : Type} {Post1 : Local W → α → Prop} {Post2 : Local W → β → Prop} {L : Local W} {p : Prog W α}
-    {f : α → Prog W β} (h : PValid Post1 L p) (hf : ∀ L' a, Post1 L' a → PValid Post2 L' (f a)) :
-    PValid Post2 L (p.bind f) := by
+theorem PValid.bind {α β : Type} {bi : Int} {Post1 : Local W → α → Prop} {Post2 : Local W → β → Prop} {L : Local W} {p : Prog W α}
+    {f : α → Prog W β} (h : PValid bi Post1 L p) (hf : ∀ L' a, Post1 L' a → PValid bi Post2 L' (f a)) :
+    PValid bi Post2 L (p.bind f) := by
   induction h with
   | done hp => exact hf _ _ hp
   | snap _ ih => exact .snap (fun recs hs => ih recs hs)
@@ -189,8 +190,8 @@ theorem PValid.bind {α β : Type} {Post1 : Local W → α → Prop} {Post2 : Lo
   | ghostB hj _ ih => exact .ghostB hj ih
   | ghostR hj _ ih => exact .ghostR hj ih
 
-theorem PValid.mono {α : Type} {Post1 Post2 : Local W → α → Prop} {L : Local W} {p : Prog W α}
-    (h : PValid Post1 L p) (hm : ∀ L' a, Post1 L' a → Post2 L' a) : PValid Post2 L p := by
+theorem PValid.mono {α : Type} {bi : Int} {Post1 Post2 : Local W → α → Prop} {L : Local W} {p : Prog W α}
+    (h : PValid bi Post1 L p) (hm : ∀ L' a, Post1 L' a → Post2 L' a) : PValid bi Post2 L p := by
   induction h with
   | done hp => exact .done (hm _ _ hp)
   | snap _ ih => exact .snap (fun recs hs => ih recs hs)
